@@ -9,6 +9,8 @@ around the 100-entry queues; every selected line must arrive exactly once, in or
 import json
 import os
 import random
+import re
+from concurrent.futures import ThreadPoolExecutor
 
 import vlib
 from vlib import log
@@ -42,6 +44,51 @@ def has_late_command(trace, ncmds):
 
 def has_flush_giveup(trace):
     return any(e["ev"] == "flush.done" and e.get("v") not in (None, "0") for e in trace)
+
+
+def trace_events(trace):
+    """projection of the recorded vhook trace onto the events of spec/SessionTrace.tla; the begin of a Read() call is
+    merged with its recorded outcome (same goroutine, same call)"""
+    out = []
+    pending = None
+    for e in trace:
+        ev = e["ev"]
+        if ev == "read":
+            pending = {"ev": "read", "c": 0, "f": 0, "v": 0}
+            out.append(pending)
+        elif ev == "read.case":
+            if e.get("v") == "line":
+                m = re.match(r"c(\d+)f(\d+)\.log", e.get("w", ""))
+                if m and pending is not None:
+                    pending.update({"c": int(m.group(1)), "f": int(m.group(2)), "v": 1})
+                    out.append({"ev": "line", "c": int(m.group(1)), "f": int(m.group(2)), "v": 0})
+            elif e.get("w", "").startswith(".syn") and pending is not None:
+                pending["v"] = 2
+                out.append({"ev": "syn", "c": 0, "f": 0, "v": 0})
+            pending = None
+        elif ev in ("send", "cmd.recv", "cmd.done"):
+            out.append({"ev": ev, "c": 0, "f": 0, "v": int(e.get("v", 0) or 0)})
+        elif ev == "flush.done":
+            out.append({"ev": "flush", "c": 0, "f": 0, "v": int(e.get("v", 0) or 0)})
+    return out
+
+
+def validate_trace(wd, case, res):
+    """TLC checks the recorded trace of one session against SessionTrace (Session's actions, silent reader steps).
+    Returns (accepted, ref_ok_along_trace, distinct_states)."""
+    exp = [[res["expected"]["c%df%d.log" % (k + 1, fi + 1)] for fi in range(len(fs))] for k, fs in enumerate(case["cmds"])]
+    cm = "<<" + ", ".join("<<" + ", ".join(str(n) for n in fs) + ">>" for fs in exp) + ">>"
+    name = "GST%d" % case["id"]
+    vlib.write_ndjson(os.path.join(wd, name + ".ndjson"), trace_events(res.get("trace") or []))
+    mod = "---- MODULE %s ----\nEXTENDS SessionTrace\nCmdsDef == %s\n====\n" % (name, cm)
+    cfg = ('SPECIFICATION TSpec\nCONSTANTS\n Cmds <- CmdsDef\n QCap = 100\n MCap = 10\n WCap = 1\n OutCap = 1\n KF_FlushGiveUp = FALSE\n'
+           ' TraceFile = "%s.ndjson"\nINVARIANT Report\n' % name)
+    t = vlib.tlc(wd, name, name + ".cfg", files={name + ".tla": mod, name + ".cfg": cfg}, workers=1, timeout=600, heap="768m",
+                 java_opts=["-Dtlc2.tool.impl.Tool.cdot=true"])
+    if not t.ok:
+        raise vlib.Inconclusive("trace validation run failed for case %d: %s %s" % (case["id"], t.violated, (t.error or t.out)[-800:]))
+    acc = [l for l in t.out.splitlines() if l.startswith('<<"ACCEPTED"')]
+    return bool(acc), any("ACCEPTED\", TRUE" in l for l in acc), t.distinct, t.depth
 
 
 def run(tier, replay):
@@ -84,12 +131,13 @@ def run(tier, replay):
                     if key in seen:
                         continue
                     seen.add(key)
-                    scale = rng.choice([1, 33, 50])
-                    lines = [[max(0, n * scale + (rng.choice([-1, 0, 0, 1]) if n and scale > 1 else 0)) for n in files] for files in cmds]
-                    pace = rng.choice(["fast", "quiescent", "stall", "stall"])
-                    cases.append({"id": len(cases) + 1, "nofinalnl": rng.random() < 0.25, "cmds": cmds, "steps": sched, "pace": pace, "stallat": rng.randrange(max(1, len(sched))),
-                                  "stallms": rng.choice([30, 150, 400]), "grep": rng.random() < 0.3, "catlimit": rng.choice([1, 2, 8]),
-                                  "seed": rng.randrange(1 << 40), "scale": scale, "lines": lines, "shape": name})
+                    # every distinct behaviour is replayed in several concretisations (scale, pace, mode)
+                    for scale in rng.sample([1, 33, 50], 2 if tier == "quick" else 3):
+                        lines = [[max(0, n * scale + (rng.choice([-1, 0, 0, 1]) if n and scale > 1 else 0)) for n in files] for files in cmds]
+                        pace = rng.choice(["fast", "quiescent", "stall", "stall"])
+                        cases.append({"id": len(cases) + 1, "nofinalnl": rng.random() < 0.25, "cmds": cmds, "steps": sched, "pace": pace, "stallat": rng.randrange(max(1, len(sched))),
+                                      "stallms": rng.choice([30, 150, 400]), "grep": rng.random() < 0.3, "catlimit": rng.choice([1, 2, 8]),
+                                      "seed": rng.randrange(1 << 40), "scale": scale, "lines": lines, "shape": name})
         if len(cases) < 20:
             raise vlib.Inconclusive("too few behaviours from TLC (%d)" % len(cases))
         rng.shuffle(cases)
@@ -128,7 +176,30 @@ def run(tier, replay):
                 V.known("KF_FlushGiveUp", desc)
             else:
                 V.violation("; ".join(bad)[:300], desc)
+        # (B) every recorded session trace against SessionTrace: the real run must be a behaviour of Session's actions
+        bad_ids = {c["id"] for c, res in zip(cases, results)
+                   if res.get("bad") or not res["ended"] or any(res["delivered"].get(k, 0) != v for k, v in res["expected"].items())}
+        vlib.tlc(wd, "MC_Session", "G.cfg", files={"G.cfg": session_cfg("CmdsOne1", False, props="")}, timeout=600)   # copies spec/ once
+        with ThreadPoolExecutor(max_workers=max(2, vlib.NCPU // 2)) as ex:
+            tv = list(ex.map(lambda cr: validate_trace(wd, cr[0], cr[1]), zip(cases, results)))
+        accepted = sum(1 for a in tv if a[0])
+        tstates = sum(a[2] for a in tv)
+        for (c, res), (acc, refok, _, depth) in zip(zip(cases, results), tv):
+            if not acc and os.environ.get("VERIF_DEBUG"):
+                import shutil
+                shutil.copy(os.path.join(wd, "GST%d.ndjson" % c["id"]), "/tmp/c02_rejected_%d.ndjson" % c["id"])
+                log("rejected trace of case %d (%s) kept in /tmp, depth %d, expected %s" % (c["id"], c["shape"], depth, res["expected"]))
+            if c["id"] in bad_ids:
+                continue      # already reported from the output; the trace served the attribution above
+            if not acc:
+                V.diverge("case %d (%s, %s): output complete but the recorded trace is not a behaviour of SessionTrace "
+                          "(longest matched prefix about %d steps)" % (c["id"], c["shape"], c["pace"], depth))
+            elif not refok:
+                V.diverge("case %d: output complete but Ref is false along every accepted reading of the trace" % c["id"])
+        log("trace validation: %d of %d recorded session traces accepted by SessionTrace (%d states)" % (accepted, len(tv), tstates))
+        states += tstates
         cov = {"states": states, "transitions": trans, "traces_validated_against_impl": len(cases),
+               "session_traces_accepted_by_SessionTrace": accepted, "session_traces_checked": len(tv),
                "evaluations": len(cases), "distinct_nontrivial": sum(1 for c in cases if c["pace"] != "fast" or len(c["cmds"]) > 1),
                "rule": "cases = distinct complete behaviours of SessionSched (order of 'deliver command k' and 'copy once' steps) from TLC "
                        "-simulate for 6 command/file shapes, each replayed with real line counts (model lines x 1/33/50, +-1 around the "
